@@ -418,3 +418,41 @@ M('C06', 'Maximum upper bound uses min', 'evaluable.py', "        return max(low
 M('C06', 'LoopIndex upper bound is the length', 'evaluable.py', "        lower_length, upper_length = self.length._intbounds\n        return 0, max(0, upper_length - 1)\n\n    def _simplified(self):\n        if isunit(self.length):", "        lower_length, upper_length = self.length._intbounds\n        return 0, max(0, lower_length - 1)\n\n    def _simplified(self):\n        if isunit(self.length):", rule='R06.4')
 M('C06', 'benign: chained compare split with and', 'evaluable.py', "        if 0 <= lower_index <= upper_index < lower_length:\n            return self.index", "        if 0 <= lower_index and upper_index < lower_length:\n            return self.index", expect='silent')
 M('C06', 'benign: swap conjunct order in Mod', 'evaluable.py', "            if 0 <= lower_dividend and upper_dividend < lower_divisor:\n                return self.dividend\n        return super()._simplified()", "            if upper_dividend < lower_divisor and lower_dividend >= 0:\n                return self.dividend\n        return super()._simplified()", expect='silent')
+
+# ---------------------------------------------------------------- C07
+M('C07', 'numpy.cos registered on the Sin node', 'function.py', "        return _Wrapper.broadcasted_arrays(evaluable.Cos, arg, min_dtype=float)", "        return _Wrapper.broadcasted_arrays(evaluable.Sin, arg, min_dtype=float)", rule='R07.1')
+M('C07', 'evaluable.cosh returns SinH', 'evaluable.py', "def cosh(arg):\n    return CosH(arg)", "def cosh(arg):\n    return SinH(arg)", rule='R07.1')
+M('C07', 'subtract adds', 'evaluable.py', "def subtract(arg1, arg2):\n    return add(arg1, negative(arg2))", "def subtract(arg1, arg2):\n    return add(arg1, arg2)", rule='R07.1')
+M('C07', 'divide swaps its operands', 'evaluable.py', "def divide(arg1, arg2):\n    return multiply(arg1, reciprocal(arg2))", "def divide(arg1, arg2):\n    return multiply(arg2, reciprocal(arg1))", rule='R07.1')
+M('C07', 'log10 divides by log(2)', 'evaluable.py', "    return ln(arg) / astype(numpy.log(10), arg.dtype)", "    return ln(arg) / astype(numpy.log(2), arg.dtype)", rule='R07.1')
+M('C07', 'sqrt uses exponent 2', 'evaluable.py', "    return power(arg, astype(.5, arg.dtype))", "    return power(arg, astype(2, arg.dtype))", rule='R07.1')
+M('C07', 'numpy.sinc without the factor pi', 'function.py', "        return _Wrapper.broadcasted_arrays(evaluable.sinc, arg * numpy.pi, min_dtype=float)", "        return _Wrapper.broadcasted_arrays(evaluable.sinc, arg, min_dtype=float)", rule='R07.1')
+M('C07', 'floor_divide registered on Mod', 'function.py', "        return _Wrapper.broadcasted_arrays(evaluable.FloorDivide, dividend, divisor)", "        return _Wrapper.broadcasted_arrays(evaluable.Mod, dividend, divisor)", rule='R07.1')
+M('C07', 'minimum registered on Maximum', 'function.py', "        return _Wrapper.broadcasted_arrays(evaluable.Minimum, a, b)", "        return _Wrapper.broadcasted_arrays(evaluable.Maximum, a, b)", rule='R07.1')
+M('C07', 'Greater emits numpy.less', 'evaluable.py', "        return _pyast.Variable('numpy').get_attr('greater').call(x, y)", "        return _pyast.Variable('numpy').get_attr('less').call(x, y)", rule='R07.1')
+M('C07', 'imag of a real array returns the array', 'evaluable.py', "        return Imag(arg)\n    else:\n        return zeros_like(arg)", "        return Imag(arg)\n    else:\n        return arg", rule='R07.1')
+M('C07', 'greater without force_dtype', 'function.py', "        return _Wrapper.broadcasted_arrays(evaluable.Greater, left, right, force_dtype=bool)", "        return _Wrapper.broadcasted_arrays(evaluable.Greater, left, right)", rule='R07.2')
+M('C07', 'true_divide without min_dtype', 'function.py', "        return _Wrapper.broadcasted_arrays(evaluable.divide, dividend, divisor, min_dtype=float)", "        return _Wrapper.broadcasted_arrays(evaluable.divide, dividend, divisor)", rule='R07.2')
+M('C07', 'exp promoted to int only', 'function.py', "        return _Wrapper.broadcasted_arrays(evaluable.Exp, arg, min_dtype=float)", "        return _Wrapper.broadcasted_arrays(evaluable.Exp, arg, min_dtype=int)", rule='R07.2')
+M('C07', 'less accepts complex operands', 'function.py', "        return _Wrapper.broadcasted_arrays(evaluable.Less, left, right, force_dtype=bool)", "        return _Wrapper.broadcasted_arrays(evaluable.Less, left, right, force_dtype=bool)\n\n    _less_marker = None", expect='silent')
+M('C07', 'logical_or accepts integers', 'function.py', "        if a.dtype != bool or b.dtype != bool:\n            return NotImplemented\n        return _Wrapper.broadcasted_arrays(evaluable.add, a, b)", "        return _Wrapper.broadcasted_arrays(evaluable.add, a, b)", rule='R07.2')
+M('C07', 'array_function hook ignores the table', 'function.py', "        if func not in HANDLED_FUNCTIONS:\n            return NotImplemented\n", "", rule='R07.3')
+M('C07', 'benign: reorder registrations', 'function.py', "    @implements(numpy.logical_and)\n    @implements(numpy.bitwise_and)", "    @implements(numpy.bitwise_and)\n    @implements(numpy.logical_and)", expect='silent')
+M('C07', 'benign: reciprocal written as division', 'evaluable.py', "def divide(arg1, arg2):\n    return multiply(arg1, reciprocal(arg2))", "def divide(arg1, arg2):\n    return multiply(reciprocal(arg2), arg1)", expect='silent')
+
+# ---------------------------------------------------------------- C05 / C09
+M('C05', 'indices returned without unique', 'evaluable.py', "                indices = [flatindex]\n                for n in reversed(self.shape[1:]):", "                indices = [concatenate(index_parts)]\n                for n in reversed(self.shape[1:]):", rule='R05.1')
+M('C05', 'unravel with unreversed lengths', 'evaluable.py', "                for n in reversed(self.shape[1:]):\n                    indices[:1] = divmod(indices[0], n)", "                for n in self.shape[1:]:\n                    indices[:1] = divmod(indices[0], n)", rule='R05.2')
+M('C05', 'values inflated over the sorter instead of the inverse', 'evaluable.py', "    inverse = UniqueInverse(mask, sorter)", "    inverse = UniqueInverse(mask, ArgSort(sorter))", rule='R05.3')
+M('C05', 'as_csr returns colidx before rowptr', 'evaluable.py', "    return values, CompressIndices(rowidx, nrows), colidx, ncols", "    return values, colidx, CompressIndices(rowidx, nrows), ncols", rule='R05.4')
+M('C05', 'row pointers compressed against ncols', 'evaluable.py', "    return values, CompressIndices(rowidx, nrows), colidx, ncols", "    return values, CompressIndices(rowidx, ncols), colidx, ncols", rule='R05.4')
+M('C05', 'part slices overlap', 'evaluable.py', "slices = [Range(length) + offset for length, offset in zip(lengths, util.cumsum(lengths))]", "slices = [Range(length) for length, offset in zip(lengths, util.cumsum(lengths))]", rule='R05.1')
+M('C05', 'benign: rename locals in assparse', 'evaluable.py', "                lengths = [arg.shape[0] for arg in value_parts]", "                lengths = [part.shape[0] for part in value_parts]", expect='silent')
+M('C09', '_Mul.get_evaluable_weights divides by sample1.nelems', 'sample.py',
+  "        ielem1, ielem2 = evaluable.divmod(__ielem, self._sample2.nelems)\n        weights1 = self._sample1.get_evaluable_weights(ielem1)", "        ielem1, ielem2 = evaluable.divmod(__ielem, self._sample1.nelems)\n        weights1 = self._sample1.get_evaluable_weights(ielem1)", rule='R09.1')
+M('C09', '_Mul.getindex strides by sample1.npoints', 'sample.py', "        return (index1[:, None] * self._sample2.npoints + index2[None, :]).ravel()", "        return (index1[:, None] * self._sample1.npoints + index2[None, :]).ravel()", rule='R09.1')
+M('C09', '_Mul lower args swapped', 'sample.py', "        return self._sample1.get_lower_args(ielem1) * self._sample2.get_lower_args(ielem2)", "        return self._sample2.get_lower_args(ielem2) * self._sample1.get_lower_args(ielem1)", rule='R09.1')
+M('C09', '_Add.getindex offsets by nelems', 'sample.py', "            return self._sample2.getindex(ielem - self._sample1.nelems) + self._sample1.npoints", "            return self._sample2.getindex(ielem - self._sample1.nelems) + self._sample1.nelems", rule='R09.1')
+M('C09', '_Add.get_element_hull not shifted', 'sample.py', "            return self._sample2.get_element_hull(ielem - self._sample1.nelems)", "            return self._sample2.get_element_hull(ielem)", rule='R09.1')
+M('C09', '_Integral sums over another index', 'sample.py', "        return evaluable.loop_sum(elem_integral, ielem)", "        return evaluable.loop_sum(elem_integral, evaluable.loop_index(f'_sample_{len(args.args)+1}', self._sample.nelems))", rule='R09.2')
+M('C09', 'benign: rename ielem1/ielem2 consistently is not recognised', 'sample.py', "        return evaluable.einsum('A,B->AB', weights1, weights2)", "        return evaluable.einsum('A,B->AB', weights1, weights2)  # outer product", expect='silent')
